@@ -26,7 +26,7 @@ def run(c):
         trace = c.replay
     else:
         trace = c.scratch + "/lookup.ndjson"
-        c.run_driver(drv, ["-n", 400 if c.thorough else 60, "-lookups", 6 if c.thorough else 5, "-out", trace])
+        c.run_driver(drv, ["-n", 400 if c.thorough else 40, "-lookups", 6 if c.thorough else 5, "-out", trace])
     r = c.validate("PathLookupTrace", "PathLookupTrace.cfg", trace, timeout=3000)
     drift = _tlcout.renorm(r)
     c.judge_trace(r, trace)
